@@ -1,12 +1,30 @@
 /-
-C15 — logger and meter provider with asynchronous arrivals of exports after a raced (done-context) call.
+C15 — all three providers with asynchronous arrivals of what a raced (done-context) call started.
 -/
 import Otel.C15.Model
 import Otel.C15.Spec
 import Otel.C15.Lag
 import Otel.C15.LagLemmas
+import Otel.C15.LagLemmasT
 namespace Otel.C15.PropsLag
 open Otel.C15 Otel.C15.Lag Otel.C15.LagLemmas
+
+/-- Trace provider, all clauses, with late arrivals: for every pool of processors and EVERY sequence of API calls
+(every resolution `Choice` of a Shutdown with a done context) interleaved with EVERY placement and size of
+asynchronous arrivals (`land`: the goroutine a stock processor started in its raced Shutdown exports queued spans /
+calls the exporter's Shutdown after the provider's Shutdown has returned), the run passes `Lag.T.tcheck`: every API
+step satisfies `Spec.TP.checkStep`, and an arrival only ever concerns a stock processor that a provider Shutdown
+with a done context took out of service: its exporter's Shutdown count stays at most one, its exports never exceed
+what was delivered to it while it was alive, nothing else moves. `Props.tp_lifecycle` is the special case
+without arrivals. -/
+theorem tp_lifecycle_async (kinds : List TP.PKind) (ops : List T.TOp) :
+    T.tcheck kinds ops (T.trun kinds ops) = Spec.Fails.none := by
+  have := LagLemmasT.tcheckFrom_none (kinds := kinds) ops { st := TP.init kinds } {} (LagLemmasT.tinv_init kinds)
+  have hs : Lemmas.snapOf (TP.init kinds) = fun _ => {} := by
+    funext i; simp [Lemmas.snapOf, TP.init]
+  simp only at this
+  rw [hs] at this
+  simp [T.tcheck, T.trun, this, LagLemmasT.trunFrom_length, Spec.Fails.or, Spec.Fails.none]
 
 /-- Logger provider, all clauses, with late exports: for every pool of log processors and EVERY sequence of API
 calls (with every resolution `Choice` of the done-context races: context error reported or not, how many records
@@ -42,6 +60,27 @@ theorem mp_lifecycle_async (kinds : List MP.RKind) (ops : List M.MOp) :
   simp [M.mcheck, M.mrun, this, M.mrunFrom_length, Spec.Fails.or, Spec.Fails.none]
 
 /-! ### Non-vacuity -/
+
+/-- a simple and a batch processor, two spans, Shutdown with a cancelled context that returns the context error
+before either goroutine has done anything; the drain's two exports, then the two exporter Shutdowns arrive later
+(more is asked for than is owed: clamped); a span on the old tracer and a second Shutdown change nothing -/
+def tKinds : List TP.PKind := [.simpleRec, .batchRec, .recd]
+def tOps : List T.TOp :=
+  [.api (.tracer 0), .api (.reg 0), .api (.reg 1), .api (.reg 2), .api (.span 0), .api (.span 0),
+   .api (.shutdown .cancelled { e := fun _ => true }), .api (.span 0), .land (fun _ => 1) (fun _ => 0),
+   .land (fun _ => 5) (fun i => if i = 0 then 3 else 0), .api (.shutdown .bg {}), .land (fun _ => 1) (fun _ => 1),
+   .land (fun _ => 1) (fun _ => 1)]
+
+example : T.tcheck tKinds tOps (T.trun tKinds tOps) = Spec.Fails.none := by decide
+example : (T.trun tKinds tOps).map (fun o => (o.res, (o.snap 0).n, (o.snap 0).s, (o.snap 1).n, (o.snap 1).s, (o.snap 2).s)) =
+    [(.sdk, 0, 0, 0, 0, 0), (.none, 0, 0, 0, 0, 0), (.none, 0, 0, 0, 0, 0), (.none, 0, 0, 0, 0, 0),
+     (.none, 1, 0, 0, 0, 0), (.none, 2, 0, 0, 0, 0), (.err true false false, 2, 0, 0, 0, 1),
+     (.none, 2, 0, 0, 0, 1), (.none, 2, 0, 1, 0, 1), (.none, 2, 1, 2, 0, 1), (.ok, 2, 1, 2, 0, 1),
+     (.none, 2, 1, 2, 1, 1), (.none, 2, 1, 2, 1, 1)] := by decide
+/-- the oracle is not vacuous: a second exporter Shutdown arriving fails clause `o` -/
+example : (T.tcheck [.simpleRec] [.api (.reg 0), .api (.shutdown .cancelled {}), .land (fun _ => 0) (fun _ => 1)]
+    [{ res := .none, snap := fun _ => {} }, { res := .ok, snap := fun _ => { s := 1 } },
+     { res := .none, snap := fun _ => { s := 2 } }]).o = true := by decide
 
 /-- the false alarm of the thorough run: ForceFlush with an expired context returns before the export goroutine
 has exported the dequeued record; the record shows up with the next live ForceFlush; a second raced flush whose
